@@ -85,6 +85,8 @@ def seed_list(tier):
         {'kind': 'ioapi', 'rec': ioapi_u.recipe(nt=2, nl=1, nr=2, nc=2, nv=2, start=5, kind='disk')},
         {'kind': 'griddesc', 'withcf': False, 'nsteps': 2},
         {'kind': 'griddesc', 'withcf': True, 'nsteps': 1},
+        # dates beyond 19 Jan 2038 (32-bit seconds since 1970) with and without CF time variables
+        {'kind': 'griddesc', 'withcf': True, 'nsteps': 3, 'sdate': 2049365, 'stime': 220000},
     ]
     return seeds
 
@@ -114,6 +116,13 @@ def menu(f):
         newv = next((n for n in ('RN1', 'RN2') if n not in f.variables), None)
         if newv:
             add('renameVariable', True, old=vl[-1], new=newv)
+            # only the renamed variable is kept: the variable count shrinks
+            add('renameVariables_only', len(vl) >= 2, old=vl[0], new=newv)
+        addv = next((n for n in ('ADD1', 'ADD2') if n not in f.variables), None)
+        if addv and not bdy and all(d in dims for d in STD4):
+            # a variable added by hand (copy + createVariable): TFLAG is one column short until the next update
+            # (the user is expected to call updatemeta: the state itself is not judged, what follows from it is)
+            add('addVariable', True, name=addv, setup=True)
         nv = next((n for n in ('N1', 'N2') if n not in f.variables), None)
         if nv:
             add('eval', True, expr='%s = %s * 2' % (nv, vl[0]))
@@ -144,6 +153,14 @@ def do_op(f, op):
         return f.subsetVariables(list(op['keys']), exclude=op.get('exclude', False))
     if n == 'renameVariable':
         return f.renameVariable(op['old'], op['new'])
+    if n == 'renameVariables_only':
+        return f.renameVariables(copyall=False, **{op['old']: op['new']})
+    if n == 'addVariable':
+        g = f.copy()
+        v = g.createVariable(op['name'], 'f', STD4)
+        v.units, v.long_name, v.var_desc = 'ppmV'.ljust(16), op['name'].ljust(16), op['name'].ljust(80)
+        v[...] = 1.5
+        return g
     if n == 'eval':
         return f.eval(op['expr'], inplace=False, copyall=op.get('copyall', False))
     if n == 'apply':
@@ -207,7 +224,8 @@ class Prop(bfs.BfsProp):
             return ioapi_u.build(s['rec'], self.tmp)
         if s['kind'] == 'griddesc':
             return P.pncopen(self.gd, format='griddesc', GDNAM='TINY', withcf=s['withcf'],
-                             nsteps=s['nsteps'], SDATE=2000060, STIME=230000, TSTEP=10000,
+                             nsteps=s['nsteps'], SDATE=s.get('sdate', 2000060), STIME=s.get('stime', 230000),
+                             TSTEP=10000,
                              VGLVLS=(1., .5, 0.))
         raise ValueError(s)
 
@@ -257,10 +275,10 @@ class Prop(bfs.BfsProp):
         except Exception as e:
             problems = [('cannot-audit', repr(e))]
         for c, d in problems:
-            if c in pre:
+            if c in pre or op.get('setup'):
                 continue      # already incoherent before this step: reported where it arose
             vs.append(viol(c, sig, d, **scope))
-        if not problems:
+        if not problems or (op.get('setup') and not any(c in ('not-wellformed', 'cannot-audit') for c, d in problems)):
             h = self.canon(new)
         after = self.canon(state)
         return {'op': op, 'hash': h, 'viol': vs, 'outcome': 'viol' if vs else 'ok', 'trans': 1,
